@@ -206,9 +206,14 @@ impl<T: Qcow2IoOps> Qcow2Dev<T> {
             }
         };
 
-        if let Some(lock) = cluster_lock {
+        if let Some(mut lock) = cluster_lock {
             if let Some(df) = discard {
-                df.await?
+                if let Err(e) = df.await {
+                    // this cluster isn't zeroed, and let the next writer
+                    // zero it
+                    *lock = false;
+                    return Err(e);
+                }
             }
 
             let cow_res = match cow_mapping {
@@ -318,6 +323,10 @@ impl<T: Qcow2IoOps> Qcow2Dev<T> {
                 // the slice may live in one new l2 table cluster, which has to
                 // be zeroed exactly once before any slice of it is written,
                 // so flush it in the same way as any other dirty slice
+                //
+                // the slice may hold mappings of other new clusters, which
+                // have to be zeroed before these mappings reach disk
+                self.zero_new_clusters().await?;
                 self.flush_cache_entries(vec![(split.l2_slice_key(info), l2_handle.clone())])
                     .await?;
 
@@ -361,6 +370,7 @@ impl<T: Qcow2IoOps> Qcow2Dev<T> {
         // to readers (the slice write lock is held)
         if let Some(off) = Self::zero_prealloc_cluster(&l2_table.get_mapping(info, split)) {
             self.call_fallocate(off, info.cluster_size(), 0).await?;
+            self.call_fsync(off, info.cluster_size(), 0).await?;
             let _ = l2_table.map_cluster(split.l2_slice_index(info), off);
             return Ok(l2_table.get_mapping(info, split));
         }
@@ -466,7 +476,11 @@ impl<T: Qcow2IoOps> Qcow2Dev<T> {
             let mapping = l2_table.get_mapping(&self.info, &s);
 
             if let Some(host_off) = Self::zero_prealloc_cluster(&mapping) {
-                if let Err(e) = self.call_fallocate(host_off, info.cluster_size(), 0).await {
+                let zeroed = match self.call_fallocate(host_off, info.cluster_size(), 0).await {
+                    Ok(_) => self.call_fsync(host_off, info.cluster_size(), 0).await,
+                    Err(e) => Err(e),
+                };
+                if let Err(e) = zeroed {
                     if reused {
                         l2_handle.set_dirty(true);
                         self.mark_need_flush(true);
